@@ -197,8 +197,8 @@ pub fn run(ctx: &Ctx) -> Report {
     let mut rep = Report::new(
         "Metamorphic over xml5ever: tokens (errors dropped, characters merged) and tree (ModelDom and RcDom dumps) of the one-piece default run must equal those of any chunking, of exact_errors=true, and of the newline/NUL-normalised input (CRLF/CR->LF, NUL->U+FFFD; a normalised input never arms the CR-LF skipping state, so this isolates 'a line break next to a character reference is neither lost nor doubled' and 'NUL->U+FFFD on every path'); discard_bom=true == parse of the input minus its first U+FEFF. Search: (1) every partition of every pool input (<=11 chars: pairs of pieces CR, CRLF, NUL, &amp; &amp &am &#65; &#x41 &# & U+FEFF, tags, quotes, comments, PIs, CDATA); (2) generated namespaced XML documents with noise and sprinkled CR/NUL/references, random chunkings incl. empty and one-character chunks. Non-trivial: the input contains CR, NUL, U+FEFF or '&'; distinct by hash of (chunks, discard_bom).",
     );
-    report_known(ctx, &mut rep, &|v| replay(ctx, v));
-    run_regressions(ctx, &mut rep, &|v| replay(ctx, v));
+    report_known(ctx, &mut rep, &|v| replay(&ctx.strict_clone(), v));
+    run_regressions(ctx, &mut rep, &|v| replay(&ctx.strict_clone(), v));
     let pool = pool();
     let mut offs = vec![];
     let mut total = 0u64;
